@@ -12,8 +12,9 @@ import os
 import json
 import random
 import shutil
+import subprocess
 from ..common import (Report, main_wrapper, seed, tier, shards, MachineryError,
-                      NCPU, workdir)
+                      NCPU, workdir, PY, VERIF, REPO)
 from ..tlc import run_tlc, parse_obl
 from .. import values as V
 from .. import wbgen as G
@@ -110,6 +111,35 @@ def main():
                                       'the probe inputs and compared with Sem(W, ov)'})
         rep.traces(len(recs))
         rep.sample({'interleaving': recs[0]['hist'], 'workbook': c03.describe(gens[recs[0]['seed']])})
+        # Independent / HistoryFree against isolated references (harness/cpjob.py): models
+        # over a broad function vocabulary, a copy (deepcopy / dill / JSON), interleaved
+        # calculations with ==-equal inputs of different types; every result must equal the
+        # one computed in a process that evaluated nothing else
+        ncp = 320 if not thorough else 3000
+        cbase = seed() * 100000 + 17500
+        jf, of = os.path.join(wd, 'cp.json'), os.path.join(wd, 'cpo.json')
+        json.dump({'items': [{'seed': cbase + i, 'copy': ['deepcopy', 'dill', 'json'][i % 3]}
+                             for i in range(ncp)], 'procs': NCPU}, open(jf, 'w'))
+        env = dict(os.environ)
+        env['VERIF_REPO'] = REPO
+        p = subprocess.run([PY, '-m', 'harness.cpjob', jf, of], cwd=VERIF, env=env,
+                           stdout=subprocess.PIPE, stderr=subprocess.STDOUT, timeout=3000)
+        if p.returncode != 0 or not os.path.exists(of):
+            raise MachineryError('cpjob failed:\n' + p.stdout.decode()[-2000:])
+        for r in json.load(open(of)):
+            rep.count(max(1, r['n']))
+            rep.distinct(('cp', r['seed']))
+            if r.get('exc'):
+                rep.violation({'kind': 'copy-history-raises', 'seed': r['seed'], 'exc': r['exc'].split(':')[0]},
+                              {'model': r['model'], 'copy': r['copy'], 'exc': r['exc']})
+                continue
+            for pr in r['problems'][:2]:
+                rep.violation({'kind': 'shared-state', 'seed': r['seed'], 'cell': pr.get('cell'),
+                               'copy': r['copy']},
+                              {'model': r['model'], 'copy_made_by': r['copy'], 'problem': pr,
+                               'how': 'calculations interleaved on a model and its copy; each result '
+                                      'against the same (model, inputs) in a process of its own'})
+        rep.cov['copy_histories_against_isolated_references'] = ncp
         rep.cov['rule'] = ('seeded workbooks (incl. array formulas padded with #N/A) x sampled '
                            'interleavings on {model, copy} with deepcopy / dill, copies of compiled '
                            'functions; every live object observed after every step; distinct '
